@@ -118,6 +118,9 @@ class Report:
         if distinct_nontrivial is None:
             distinct_nontrivial = len(self.nontrivial)
         cov = dict(self.counts)
+        if n_viol or n_known:      # a run cut short by violations may have counted nothing
+            for k in ('states', 'transitions', 'evaluations'):
+                cov[k] = max(1, cov.get(k, 0))
         cov['distinct_nontrivial'] = int(distinct_nontrivial)
         cov['rule'] = rule
         cov['samples'] = self.samples
